@@ -464,6 +464,10 @@ func vc09GenHistory(t *rapid.T) *vc09History {
 			"set", "set", "set", "clear", "setval", "setval", "import", "import", "importclear",
 			"importvalue", "importvalue", "roaring", "roaringclear", "store", "clearrow",
 		}
+		if !sc.IndexKeys {
+			// bulk batches that change 600-3000 bits of one fragment with one op
+			kinds = append(kinds, "bigimport", "bigimport", "bigimportclear", "bigimportvalue")
+		}
 		if i == 0 {
 			// the first write creates a shard (Store/ClearRow over an index without
 			// any shard is a different subject)
@@ -547,6 +551,38 @@ func vc09GenHistory(t *rapid.T) *vc09History {
 			for j := 0; j < cnt; j++ {
 				w.Rows = append(w.Rows, rapid.SampledFrom(vc09RowPool).Draw(t, "row"))
 				w.Cols = append(w.Cols, w.Shard*ShardWidth+rapid.SampledFrom([]uint64{0, 1, 2, 3, 65535, 65536, ShardWidth - 1}).Draw(t, "colInShard"))
+			}
+		case "bigimport", "bigimportclear":
+			// a few draws describe the batch: region (so that a later clear hits what
+			// an earlier import set), number of columns, shard; 3 rows per column
+			w.Kind = strings.TrimPrefix(kind, "big")
+			w.Field = "s"
+			w.Shard = uint64(rapid.IntRange(0, 1).Draw(t, "shard"))
+			region := uint64(rapid.IntRange(0, 1).Draw(t, "region"))
+			ncols := uint64(rapid.IntRange(200, 1000).Draw(t, "bigCols"))
+			for c := uint64(0); c < ncols; c++ {
+				for _, r := range []uint64{1, 2, 3} {
+					w.Rows = append(w.Rows, r)
+					w.Cols = append(w.Cols, w.Shard*ShardWidth+1000+region*70000+c)
+				}
+			}
+		case "bigimportvalue":
+			w.Kind = "importvalue"
+			w.Field = "v"
+			w.Shard = uint64(rapid.IntRange(0, 1).Draw(t, "shard"))
+			region := uint64(rapid.IntRange(0, 1).Draw(t, "region"))
+			ncols := uint64(rapid.IntRange(300, 900).Draw(t, "bigCols"))
+			base := rapid.IntRange(0, 5).Draw(t, "bigValBase")
+			for c := uint64(0); c < ncols; c++ {
+				v := int64((base+int(c))%7) - 3 // -3..3
+				if v < sc.IntMin {
+					v = sc.IntMin
+				}
+				if v > sc.IntMax {
+					v = sc.IntMax
+				}
+				w.Cols = append(w.Cols, w.Shard*ShardWidth+1000+region*70000+c)
+				w.Vals = append(w.Vals, v)
 			}
 		case "store":
 			w.Field = "s"
